@@ -21,6 +21,13 @@ pub enum Action {
 	Crash(usize, u32),
 	/// Crash inside the next handler call on node at its k-th persist call (after=true: the write landed).
 	CrashInside(usize, u32, bool),
+	/// Node stops handling its events until released (a single deviation expresses an arbitrarily
+	/// long delay of event processing).
+	HoldEvents(usize),
+	ReleaseEvents(usize),
+	/// Deliveries on link from→to are paused until released.
+	HoldLink(usize, usize),
+	ReleaseLink(usize, usize),
 	Mine,
 	/// Mine k empty blocks and tell every node.
 	MineEmpty(u32),
@@ -44,6 +51,10 @@ pub fn encode_action(a: &Action) -> String {
 		Action::WriteManager(n) => format!("wm:{}", n),
 		Action::Crash(n, c) => format!("crash:{}:{}", n, c),
 		Action::CrashInside(n, k, a) => format!("crashin:{}:{}:{}", n, k, if *a { 1 } else { 0 }),
+		Action::HoldEvents(n) => format!("holdev:{}", n),
+		Action::ReleaseEvents(n) => format!("relev:{}", n),
+		Action::HoldLink(f, t) => format!("holdlk:{}>{}", f, t),
+		Action::ReleaseLink(f, t) => format!("rellk:{}>{}", f, t),
 		Action::Mine => "mine".to_string(),
 		Action::MineEmpty(k) => format!("mineempty:{}", k),
 		Action::TamperRaa(f, t, v) => format!("tamper:{}:{}:{}", f, t, v),
@@ -84,6 +95,16 @@ pub fn decode_action(s: &str) -> Option<Action> {
 		"crashin" => {
 			let v = nums(':');
 			Action::CrashInside(*v.get(0)? as usize, *v.get(1)? as u32, *v.get(2)? == 1)
+		},
+		"holdev" => Action::HoldEvents(rest.parse().ok()?),
+		"relev" => Action::ReleaseEvents(rest.parse().ok()?),
+		"holdlk" => {
+			let v = nums('>');
+			Action::HoldLink(*v.get(0)? as usize, *v.get(1)? as usize)
+		},
+		"rellk" => {
+			let v = nums('>');
+			Action::ReleaseLink(*v.get(0)? as usize, *v.get(1)? as usize)
 		},
 		"mine" => Action::Mine,
 		"mineempty" => Action::MineEmpty(rest.parse().ok()?),
@@ -144,6 +165,9 @@ pub struct Deviations {
 	/// cost of completing a monitor update out of default order (default: oldest first, immediately)
 	pub complete_reorder: Option<u32>,
 	pub tamper_raa: Option<u32>,
+	/// sticky delays: hold a node's event processing / a link's deliveries until released
+	pub hold_events: Option<u32>,
+	pub hold_link: Option<u32>,
 }
 
 impl Default for Deviations {
@@ -158,6 +182,8 @@ impl Default for Deviations {
 			crash_inside: None,
 			complete_reorder: Some(1),
 			tamper_raa: None,
+			hold_events: None,
+			hold_link: None,
 		}
 	}
 }
@@ -187,6 +213,10 @@ pub struct WorldSys {
 	pub jump_left: u32,
 	pub tampered: bool,
 	pub last_raa: std::collections::BTreeMap<(usize, usize), lightning::ln::msgs::RevokeAndACK>,
+	pub held_events: Vec<bool>,
+	pub held_links: std::collections::BTreeSet<(usize, usize)>,
+	pub holds_done: u32,
+	pub max_holds: u32,
 	pub crash_nodes: Vec<usize>,
 	/// mine to resolution in the settling phase when a channel was closed on chain
 	pub settle_on_chain: bool,
@@ -221,6 +251,10 @@ impl WorldSys {
 			tampered: false,
 			last_raa: Default::default(),
 			settle_on_chain: false,
+			held_events: vec![false; n],
+			held_links: Default::default(),
+			holds_done: 0,
+			max_holds: 1,
 			crash_nodes: Vec::new(),
 			probes: Vec::new(),
 		}
@@ -241,7 +275,7 @@ impl WorldSys {
 			}
 		}
 		for i in 0..n {
-			if self.w.nodes[i].has_events() {
+			if !self.held_events[i] && self.w.nodes[i].has_events() {
 				v.push(Action::Events(i));
 			}
 		}
@@ -251,7 +285,7 @@ impl WorldSys {
 			}
 		}
 		for ((f, t), q) in self.w.links.iter() {
-			if !q.is_empty() {
+			if !q.is_empty() && !self.held_links.contains(&(*f, *t)) {
 				v.push(Action::Deliver(*f, *t));
 			}
 		}
@@ -265,6 +299,15 @@ impl WorldSys {
 		}
 		if !self.ops_first && !self.finished && self.next_op < self.ops.len() {
 			v.push(Action::Op(self.next_op));
+		}
+		// releases come last in the default order (maximal delay); earlier release is a zero-cost alternative
+		for i in 0..n {
+			if self.held_events[i] {
+				v.push(Action::ReleaseEvents(i));
+			}
+		}
+		for (f, t) in self.held_links.iter() {
+			v.push(Action::ReleaseLink(*f, *t));
 		}
 		if v.is_empty() && self.finished && self.settle_on_chain {
 			// on-chain settling: confirm whatever is in the mempool, bury it by the anti-reorg depth, let
@@ -291,6 +334,7 @@ impl WorldSys {
 		}
 		match a {
 			Action::Op(_) => self.dev.early_op.unwrap_or(u32::MAX),
+			Action::ReleaseEvents(_) | Action::ReleaseLink(..) => 0,
 			Action::Complete(..) => self.dev.complete_reorder.unwrap_or(u32::MAX),
 			_ => self.dev.reorder.unwrap_or(u32::MAX),
 		}
@@ -459,6 +503,20 @@ impl WorldSys {
 			Action::Finish => {
 				self.finished = true;
 			},
+			Action::HoldEvents(n) => {
+				self.holds_done += 1;
+				self.held_events[*n] = true;
+			},
+			Action::ReleaseEvents(n) => {
+				self.held_events[*n] = false;
+			},
+			Action::HoldLink(f, t) => {
+				self.holds_done += 1;
+				self.held_links.insert((*f, *t));
+			},
+			Action::ReleaseLink(f, t) => {
+				self.held_links.remove(&(*f, *t));
+			},
 			Action::Mine => {
 				self.mines_done += 1;
 				self.needs_bury = true;
@@ -582,6 +640,24 @@ impl System for WorldSys {
 			if self.ticks_done < 2 {
 				for i in 0..n {
 					out.push((Action::Tick(i), c));
+				}
+			}
+		}
+		if self.holds_done < self.max_holds {
+			if let Some(c) = self.dev.hold_events {
+				for i in 0..n {
+					if !self.held_events[i] {
+						out.push((Action::HoldEvents(i), c));
+					}
+				}
+			}
+			if let Some(c) = self.dev.hold_link {
+				for a in 0..n {
+					for b in 0..n {
+						if a != b && self.w.is_connected(a, b) && !self.held_links.contains(&(a, b)) {
+							out.push((Action::HoldLink(a, b), c));
+						}
+					}
 				}
 			}
 		}
